@@ -213,12 +213,15 @@ def gen_cv(w, tier):
     cvs = ["", "const", "volatile", "const volatile"]
     for U in ("double", "X", "int*"):
         for cv in cvs:
-            for ref in ("", "&"):
+            for ref in ("", "&", "&&"):
                 T = ("%s int%s" % (cv, ref)).strip()
+                # only lvalue references are re-applied: for an rvalue-reference source the cv-qualifiers of the referred type are applied and
+                # the result is a value type (primary template over remove_reference_t<T>) - confirmed on the pinned tree and frozen here
+                oref = ref if ref == "&" else ""
                 if U.endswith("*"):
-                    exp = ("%s %s%s" % (U, cv, ref)).strip()
+                    exp = ("%s %s%s" % (U, cv, oref)).strip()
                 else:
-                    exp = ("%s %s%s" % (cv, U, ref)).strip()
+                    exp = ("%s %s%s" % (cv, U, oref)).strip()
                 w.same("xtl::apply_cv_t<%s, %s>" % (T, U), exp, R, "apply_cv", "apply_cv_t", "T=%s U=%s" % (T, U))
     table = [("int", "const int"), ("const int", "const int"), ("int*", "const int*"), ("const int*", "const int*"),
              ("int&", "const int&"), ("const int&", "const int&"), ("X", "const X"), ("X&", "const X&"), ("X*", "const X*"),
@@ -246,7 +249,7 @@ def run(tier):
                  trusted_base=["clang++ 14 (and g++ 12 in the thorough tier) template instantiation and static_assert evaluation",
                                "the oracle generators in sa/rules/c18.py"],
                  assumptions=["std::complex forms are taken over float/double/long double only (the only ones the standard defines)",
-                              "apply_cv is tabulated for value and lvalue-reference sources (its only uses in xtl)"])
+                              "apply_cv is tabulated for value, lvalue-reference and rvalue-reference sources (rvalue references yield a cv-qualified value type)"])
     rep.rule("C18.list", "each mpl list algorithm computes what the corresponding operation on the list of types computes")
     rep.rule("C18.promote", "promote_type_t of an arithmetic pack is the type of adding values of those types (leading bool neutral); "
                             "of a pack containing std::complex it is std::complex of the promotion of all component types, never nested")
